@@ -84,7 +84,7 @@ pub fn generate(rng: &mut Rng, prop: Prop) -> Scenario {
                 let n = rng.urange(1, 3);
                 let big = rng.chance(1, 30);
                 for _ in 0..n {
-                    let budget = if big { rng.urange(2000, 40000) } else { rng.urange(8, 200) };
+                    let budget = if big { rng.urange(2000, 90000) } else { rng.urange(8, 200) };
                     payload.extend(enc::tls_message(&gen::any_handshake(rng, budget)));
                 }
                 if f_malformed && rng.chance(1, 2) {
